@@ -2,6 +2,7 @@ package poolsim
 
 import (
 	"fmt"
+	"sort"
 	"strings"
 
 	"go.sia.tech/core/consensus"
@@ -15,6 +16,7 @@ type AIn struct {
 	Role int // 0 spend, 1 revise, 2 ref
 	Leaf uint64
 	POK  bool
+	Rev  uint64 // revision number a revision sets
 }
 
 type ATx struct {
@@ -122,7 +124,7 @@ func (w *World) AbsV1(txn types.Transaction, m Meta) ATx {
 		}
 	}
 	for _, rev := range txn.FileContractRevisions {
-		a.Ins = append(a.Ins, AIn{Key: Fc1Key(rev.ParentID), Cls: 2, Role: 1, POK: true})
+		a.Ins = append(a.Ins, AIn{Key: Fc1Key(rev.ParentID), Cls: 2, Role: 1, POK: true, Rev: rev.FileContract.RevisionNumber})
 		hi = minu(hi, rev.FileContract.WindowStart)
 		if ws, ok := w.Fc1Start[rev.ParentID]; ok {
 			hi = minu(hi, ws)
@@ -167,7 +169,7 @@ func (w *World) AbsV2(txn types.V2Transaction, m Meta) ATx {
 		hi = minu(hi, fc.ProofHeight)
 	}
 	for _, rev := range txn.FileContractRevisions {
-		a.Ins = append(a.Ins, AIn{Key: Fc2Key(rev.Parent.ID, rev.Parent.V2FileContract), Cls: 3, Role: 1, Leaf: rev.Parent.StateElement.LeafIndex, POK: m.POK})
+		a.Ins = append(a.Ins, AIn{Key: Fc2Key(rev.Parent.ID, rev.Parent.V2FileContract), Cls: 3, Role: 1, Leaf: rev.Parent.StateElement.LeafIndex, POK: m.POK, Rev: rev.Revision.RevisionNumber})
 		hi = minu(hi, rev.Parent.V2FileContract.ProofHeight)
 		hi = minu(hi, rev.Revision.ProofHeight)
 	}
@@ -254,7 +256,11 @@ func leafStr(l uint64) string {
 func (n *Names) CoqTx(a ATx) string {
 	var ins, outs []string
 	for _, i := range a.Ins {
-		ins = append(ins, fmt.Sprintf("I %d %d %s %v", n.El(i.Key, i.Cls), i.Role, leafStr(i.Leaf), i.POK))
+		if i.Role == 1 {
+			ins = append(ins, fmt.Sprintf("Iv %d %s %v %d", n.El(i.Key, i.Cls), leafStr(i.Leaf), i.POK, i.Rev))
+		} else {
+			ins = append(ins, fmt.Sprintf("I %d %d %s %v", n.El(i.Key, i.Cls), i.Role, leafStr(i.Leaf), i.POK))
+		}
 	}
 	for _, o := range a.Outs {
 		outs = append(outs, fmt.Sprint(n.El(o.Key, o.Cls)))
@@ -283,7 +289,20 @@ func (n *Names) CoqEls(es []Created) string {
 
 // CoqLedger renders the ledger at a node restricted to named elements.
 func (n *Names) CoqLedger(in *NodeInfo) string {
-	return fmt.Sprintf("Lg %s %d %d", n.CoqEls(in.LedgerEntries()), in.Num, in.Index.Height)
+	// revision numbers of the named contracts
+	var revs []string
+	for id, e := range in.L.FC {
+		if v, ok := n.HasEl(Fc1Key(id)); ok && e.FileContract.RevisionNumber != 0 {
+			revs = append(revs, fmt.Sprintf("(%d, %d)", v, e.FileContract.RevisionNumber))
+		}
+	}
+	for id, e := range in.L.V2FC {
+		if v, ok := n.HasEl(Fc2Key(id, e.V2FileContract)); ok && e.V2FileContract.RevisionNumber != 0 {
+			revs = append(revs, fmt.Sprintf("(%d, %d)", v, e.V2FileContract.RevisionNumber))
+		}
+	}
+	sort.Strings(revs)
+	return fmt.Sprintf("Lg %s %d %d [%s]", n.CoqEls(in.LedgerEntries()), in.Num, in.Index.Height, strings.Join(revs, "; "))
 }
 
 // CoqIndex renders a chain index.
